@@ -162,6 +162,10 @@ impl TheDrawFont {
             if bytes[o] == 0 {
                 break;
             }
+            // every font starts with a complete header: indicator, name, type, spacing, block size and glyph offsets
+            if bytes.len() < o + THE_DRAW_FONT_HEADER_SIZE - (THE_DRAW_FONT_ID.len() + 2) {
+                return Err(TdfError::FileTooShort.into());
+            }
             let indicator = u32::from_le_bytes(bytes[o..(o + 4)].try_into().unwrap());
             if indicator != FONT_INDICATOR {
                 return Err(TdfError::FontIndicatorMismatch.into());
@@ -229,6 +233,9 @@ impl TheDrawFont {
                 }
                 char_offset += o;
 
+                if char_offset + 2 > bytes.len() {
+                    return Err(TdfError::DataOverflow(char_offset).into());
+                }
                 let width = bytes[char_offset] as usize;
                 char_offset += 1;
                 let height = bytes[char_offset] as usize;
@@ -249,6 +256,9 @@ impl TheDrawFont {
                     if matches!(font_type, FontType::Color) {
                         if ch == 13 {
                             continue;
+                        }
+                        if char_offset >= bytes.len() {
+                            return Err(TdfError::DataOverflow(char_offset).into());
                         }
                         ch = bytes[char_offset];
                         char_offset += 1;
